@@ -116,7 +116,14 @@ def goto(R, E, goto_threshold=0.35, goto_mu=0.2, goto_sigma=0.2):
 
 
 def _quant(x, o):
-    return math.ceil((x - o) * 100)
+    """10 ms quantisation ceil((x - o) * 100), exact.  On decimal (real-data) times the exact value can lie within
+    rounding distance of an integer, where binary64 arithmetic may legitimately step to the other side: such a state
+    is outside what the definition decides (skipped and counted by the callers)."""
+    v = (x - o) * 100
+    c = math.ceil(v)
+    if abs(v - round(v)) < Fr(1, 10 ** 9) and math.ceil((float(x) - float(o)) * 100.0) != c:
+        raise Undefined("beat time within rounding distance of a 10 ms quantisation step")
+    return c
 
 
 def p_score_precondition(R, E, p_score_threshold=0.2):
